@@ -11,7 +11,9 @@ P = {
  "C03": (False, "value identity + path rules on the bridge/relay code only", "", ""),
  "C04": (False, "error-flow + must-pass-through on allocate/restart; open-flag discipline for the status file; lock re-entrancy on the unit index", "", ""),
  "C05": (False, "edge-cut on the results goroutine exits; value identity for read position and sent slice; append-only mirror", "", ""),
- "C06": (False, "edge-cut: every picture write and relay is control-dependent on freshness, dedup and self-origin tests; atomic dedup section (lockset)", "", ""),
+ "C06": (True, "exhaustive abstract evaluation of the freshness comparison chain over the 9 orderings of (epoch, sequence) vs stored; SSA edge cuts for dedup/self-origin; must-pass-through of the dedup insert; lockset atomicity; who-may/single-writer tables",
+         "Decides, for every routing update, that handleRoutingUpdate's comparison chain accepts exactly the newer updates (all 9 orderings of update epoch/sequence against the stored pair are evaluated on the SSA; the quantities are only compared, so this is exhaustive); that picture writes and the relay are unreachable from the already-seen edge, the self-origin edge and the empty-origin edge; that the UpdateID is recorded before any effect on every path and in the same write-lock section as the lookup; that the relay excludes the receiving connection, which is the established peer ID, and is stamped with our ID; that sequence/epoch have single writers and the dedup/picture maps are accessed under their locks. It does not decide mesh-level behaviour over delivery orders.",
+         "Trusts go/types, go/ssa; assumes epoch/sequence are used only through comparisons and copies (the evaluator stops otherwise)."),
  "C07": (True, "wire-cone panic-freedom: compiler BCE report + discharge idioms, nil-guard obligations on decoded pointer fields, type-assert/panic/close scans, lockset re-entrancy and lock-order graph, cost-positivity path rule",
          "Decides, for every input a backend peer can send, the structural clauses without which C07 cannot hold: no index/slice in the wire cone (90 functions reachable from received bytes) that is neither compiler-proven nor covered by a stated idiom; no dereference of a JSON-decoded pointer field without a dominating nil test; no unchecked type assertion, explicit panic or non-owner channel close in the cone; no re-entrant lock acquisition or lock-order cycle among the Netceptor locks; peer-supplied costs are rejected unless positive before they can reach the shortest-path loop. It does not decide resource exhaustion or liveness afterwards.",
          "Trusts go/types, go/ssa, the VTA call graph (dependencies opaque in the quick tier), the compiler's prove pass, and the library contracts listed in the evidence file (io.Reader counts, strings.Split, json.Unmarshal nil-ness)."),
